@@ -61,6 +61,7 @@ import Proofs.FormatPipeParse
 import Proofs.FormatFileLex
 import Proofs.FormatExpRangeText
 import Proofs.FormatStageRangeText
+import Proofs.FormatStageRange32
 
 namespace Props.C09
 open Martian.Format
@@ -1559,14 +1560,16 @@ Model: `Martian.FormatDeclText`.  `threads`: the model reader keeps the token te
 checks exhaustively on 0.01 … 64.00, key `C09:threads-hundredths`); `parseStageH h` = the real
 parser's `Stage`.
 
-CAVEAT (F29, stated, not hidden): `mem_gb` / `vmem_gb` are read by `readGBTok`, the EXACT decimal
-value of the literal rounded up to 1/1024; the real parser rounds the literal to the nearest
-float32 first (`readGB32`).  The two agree on every text `formatGB` prints below 256 GB and differ
-from 256 GB + 44 MB on (`formatGB_float32_witness`).  The stage theorems below are about the model
-reader with the exact reading; it is tied to the real parser on every literal and every printed
-value the harness samples (streams `C09.readgb` / `C09.readgb32`, harness/c09res.go).  So for
-resources of 256 GB and more `format_preserves_accepted_stage_partial` does NOT speak about the
-real code (there the real formatter's output is not a fixed point: finding F29). -/
+`mem_gb` / `vmem_gb` (F29, stated, not hidden): `parseStage` reads them by `readGBTok`, the EXACT
+decimal value of the literal rounded up to 1/1024; the real parser rounds the literal to the nearest
+float32 first (`readGB32Tok`; `0.5000000001` is 512 MB for the real parser, 513 MB exactly).  BOTH
+readers are covered: `parseStage` (`…_stage_partial`, hypothesis `stageMBValid`: below 2^53 GB, F25)
+and `parseStage32` = the same reader with `readGB32Tok` (`…_stage32_partial`, hypothesis
+`stageMB32Valid`: below 256 GB in magnitude — `readGB32_inverts_formatGB`, 262 144 values by kernel
+evaluation; from 256 GB + 44 MB on the real formatter's output does NOT read back as the same
+value: `accepted_stage_float32_resource`, finding F29).  The harness ties `readGB32` to the real
+parser on every literal and every printed value it samples (streams `C09.readgb` / `C09.readgb32`,
+harness/c09res.go). -/
 section AcceptedDeclTexts
 open Martian.FormatExp Martian.FormatDecl Martian.FormatRes Martian.FormatStage
 open Martian.Lexer (Bytes)
@@ -1656,8 +1659,9 @@ theorem format_preserves_accepted_params_partial (src : Bytes) (ps : List Param)
   refine ⟨h1, parseParams_fmt_accepted src ps h hs _ _ _ _, fun ps' h2 => ?_⟩
   rw [h1] at h2; injection h2 with h2; rw [h2]
 
-/-- **Formatting preserves every accepted `stage` text** — partial: `hs` = F6b, `hm` = F25; and
-see the CAVEAT of the section header about F29 (the model reads `mem_gb` exactly).  For every
+/-- **Formatting preserves every accepted `stage` text** — partial: `hs` = F6b, `hm` = F25; this is
+the reader with the EXACT reading of `mem_gb` / `vmem_gb` (section header; the real reading:
+`format_preserves_accepted_stage32_partial`).  For every
 source text the parser accepts (any spacing, comments between tokens, `split using (`, resource
 entries in any order, repeated, in either spelling, numerals in any spelling): the formatter's
 output is accepted, denotes the same stage, and whatever it is read as prints to the same text. -/
@@ -1666,6 +1670,48 @@ theorem format_preserves_accepted_stage_partial (h : Bytes → Bytes) (hh : HOK 
     parseStageH h (fmtStage s) = some s ∧
     ∀ s', parseStageH h (fmtStage s) = some s' → fmtStage s' = fmtStage s :=
   parseStageH_fmtStage h hh src s hp hs hm
+
+/-! ### the same with `mem_gb` / `vmem_gb` as the REAL parser reads them (float32) -/
+
+/-- **The real reading inverts `formatGB` below 256 GB**: for `|mb| < 256·1024` the text `formatGB`
+prints, rounded to the nearest float32 and then up to 1/1024 (`readGB32` = `tryParseFloat32` +
+`roundUpTo`), is `mb` again, and the exact reader agrees.  (262 144 values: the text is reduced to
+`f32MB (f32Round (I·10^k + D) (10^k))`, evaluated by the kernel in 64 slices.)  Sharp:
+`formatGB_float32_witness` is 256 GB + 44 MB. -/
+theorem readGB32_inverts_formatGB (mb : Int) (hb : mb.natAbs < 262144) :
+    readGB32 (fmtGB mb) = some mb ∧ readGB32 (fmtGB mb) = readGB (fmtGB mb) :=
+  readGB32_fmtGB mb hb
+
+/-- definitional: `parseStage` is the parameterised stage reader with the exact reading of the two
+values; `parseStage32` is the same reader with the real one -/
+theorem parseStage_readers (src : Bytes) :
+    parseStage src = (lexAll src).bind (pStageAllR readGBTok) ∧
+    parseStage32 src = (lexAll src).bind (pStageAllR readGB32Tok) :=
+  ⟨parseStage_eq src, rfl⟩
+
+/-- **Range of the stage reader with the real reading** (no exception hypothesis) -/
+theorem parse32_produces_stageRaw (src : Bytes) (s : Stage) (h : parseStage32 src = some s) :
+    stageRaw s = true :=
+  parseStage32_range src s h
+
+/-- **The real parser produces well-formed stages** — partial: `hs` = F6b; `hm` (`mem_gb`, `vmem_gb`
+below 256 GB in magnitude) is stronger than F25 needs and is what `format_preserves_accepted_stage32_partial`
+needs (F29). -/
+theorem parse_produces_wf_stage32_partial (h : Bytes → Bytes) (hh : HOK h) (src : Bytes) (s : Stage)
+    (hp : parseStage32H h src = some s) (hs : stageStrsValid s = true) (hm : stageMB32Valid s = true) :
+    wfStage s = true :=
+  parseStage32H_wf h hh src s hp hs hm
+
+/-- **Formatting preserves every stage text the REAL parser accepts** — partial: `hs` = F6b, `hm` =
+F29/F25 (`mem_gb`, `vmem_gb` below 256 GB in magnitude; without it the statement is FALSE for the
+code as it is: `accepted_stage_float32_resource`).  The reader is `parseStage32H h`: every
+clause of the grammar's `stage` production, `mem_gb` / `vmem_gb` through the float32 rounding of the
+literal, `threads` through `h`. -/
+theorem format_preserves_accepted_stage32_partial (h : Bytes → Bytes) (hh : HOK h) (src : Bytes) (s : Stage)
+    (hp : parseStage32H h src = some s) (hs : stageStrsValid s = true) (hm : stageMB32Valid s = true) :
+    parseStage32H h (fmtStage s) = some s ∧
+    ∀ s', parseStage32H h (fmtStage s) = some s' → fmtStage s' = fmtStage s :=
+  parseStage32H_fmtStage h hh src s hp hs hm
 
 /-! ### non-vacuity: concrete SOURCE TEXTS in non-canonical spelling -/
 
@@ -1741,6 +1787,32 @@ theorem accepted_stage_threads_text :
       (fun s => (stageRaw s, wfStage s, s.res.bind (·.threads))) = some (true, false, some (ascii "007")) ∧
     (parseStageH hSample (ascii "stage S(src py \"x\",) using (threads = 007,)")).map
       (fun s => (wfStage s, s.res.bind (·.threads))) = some (true, some (ascii "7")) := by
+  set_option maxRecDepth 100000 in decide +kernel
+
+/-- non-vacuity for the real reading: `sampleStageText` is read alike by both readers and
+satisfies `stageMB32Valid`; `mem_gb = 0.5000000001` is 512 MB for the real parser (the float32
+nearest to the literal is 0.5) and 513 MB for the exact reader -/
+example :
+    parseStage32H hSample sampleStageText = parseStageH hSample sampleStageText ∧
+    (parseStage32H hSample sampleStageText).map stageMB32Valid = some true ∧
+    (parseStage32 (ascii "stage S(src py \"x\",) using (mem_gb = 0.5000000001,)")).map (fun s => s.res.bind (·.mem)) =
+      some (some 512) ∧
+    (parseStage (ascii "stage S(src py \"x\",) using (mem_gb = 0.5000000001,)")).map (fun s => s.res.bind (·.mem)) =
+      some (some 513) := by
+  set_option maxRecDepth 100000 in decide +kernel
+
+/-- Negative witness F29 on an ACCEPTED stage text: `mem_gb = 256.04296875` (256 GB + 44 MB, a
+float32) is accepted by the real reader as 262188 MB (`stageMB32Valid` fails, `stageMBValid` and
+`wfStage` hold); the formatter prints `256.042`, which the real reader reads as 262187 MB — the
+output does not denote the same stage (the exact reader reads 262188 back). -/
+theorem accepted_stage_float32_resource :
+    (match parseStage32 (ascii "stage S(src py \"x\",) using (mem_gb = 256.04296875,)") with
+      | some s => !stageMB32Valid s && stageMBValid s && wfStage s &&
+          ((s.res.bind (·.mem)) == some (262188 : Int)) &&
+          fmtStage s == ascii "stage S(\n    src py \"x\",\n) using (\n    mem_gb = 256.042,\n)\n" &&
+          ((parseStage32 (fmtStage s)).map (fun s' => s'.res.bind (·.mem)) == some (some (262187 : Int))) &&
+          ((parseStage (fmtStage s)).map (fun s' => s'.res.bind (·.mem)) == some (some (262188 : Int)))
+      | none => false) = true := by
   set_option maxRecDepth 100000 in decide +kernel
 
 end AcceptedDeclTexts
